@@ -604,6 +604,12 @@ class Machine:
         if len(want) < 3:
             return ["skip"]
         kw = self.iter_kwargs(op, start, stop, step)
+        if op.get("shared_range"):
+            # both iterations are driven by ONE DateRange object
+            from beyond.dates import Date
+
+            sgn = 1 if stop > start else -1
+            kw = dict(dates=Date.range(mkdate(start), mkdate(stop), timedelta(microseconds=step * sgn), inclusive=True))
         if op.get("same"):
             # the second user is the shared orbit itself: two iterations of one object alive at once
             other, ref_other = self.obj, self.fresh_obj()
@@ -629,7 +635,7 @@ class Machine:
                 if op.get("zip"):
                     # the other orbit starts an iteration of its own and both go on in lockstep
                     it2 = other.iter(**kw)
-                    ref2 = iter(list(ref_other.iter(**kw)))
+                    ref2 = iter(list(ref_other.iter(**self.iter_kwargs(op, start, stop, step))))
                     for a2, b2 in zip(it2, ref2):
                         if not np.array_equal(cart(a2), cart(b2)):
                             raise Violation("state-differs", "iteration of another orbit, started while the first is suspended, "
@@ -773,6 +779,7 @@ def op_strategy(draw, kind, h_us, span_us):
         d["t_us"] = t()
         d["zip"] = draw(st.booleans())
         d["same"] = draw(st.integers(0, 2)) == 0
+        d["shared_range"] = draw(st.integers(0, 2)) == 0
     return d
 
 
